@@ -140,6 +140,13 @@ pub fn det_ops<C: Impl>(group: &str) -> Vec<(String, String)> {
     }
     let gt = <C as Pairing>::pairing(&[(<C as Pairing>::Signature::generator() * sc::<C>(2), <C as Pairing>::PublicKey::generator() * sc::<C>(3))]);
     put("pairing/gt_bytes".into(), gt.to_bytes().as_ref());
+    // the empty product and products over identity operands (not in the corpus of the pinned release: compared across backends)
+    let e0 = <C as Pairing>::pairing(&[]);
+    put("pairing/empty".into(), e0.to_bytes().as_ref());
+    put("pairing/empty_is_identity".into(), if bool::from(e0.is_identity()) { b"yes" } else { b"no" });
+    let e1 = <C as Pairing>::pairing(&[(<C as Pairing>::Signature::identity(), <C as Pairing>::PublicKey::generator()), (<C as Pairing>::Signature::generator(), <C as Pairing>::PublicKey::identity())]);
+    put("pairing/identity_operands".into(), e1.to_bytes().as_ref());
+    put("pairing/sum_with_empty".into(), (gt + e0).to_bytes().as_ref());
     for (wn, w) in [("zero", [0u8; 64]), ("ff", [0xffu8; 64]), ("low_ge_r", { let mut a = [0u8; 64]; for x in a.iter_mut().take(32) { *x = 0xff; } a }), ("pattern", { let mut a = [0u8; 64]; for (i, x) in a.iter_mut().enumerate() { *x = (i * 37 + 11) as u8; } a })] {
         put(format!("scalar/from_bytes_wide/{wn}"), &SecretKey::<C>(<C as BlsElGamal>::scalar_from_bytes_wide(&w)).to_be_bytes());
     }
